@@ -180,6 +180,25 @@ def rule_checkable_no_command(ctx):
         pass
 
 
+def rule_running_row_not_reset(ctx):
+    """R-C12-6: a command that is still running keeps its row.  A detached step keeps running; when its creator
+    declares it again *differently*, can_recycle refuses and Trellis.create re-initialises the row (PENDING, no
+    hold, fresh claims): the dispatcher no longer counts the running command and can start the step a second time.
+    Somewhere on the way from define_step to the re-initialisation the state of the reused row has to be looked at."""
+    sites = [ctx.prog.func("workflow.Workflow.define_step"), ctx.prog.func("trellis.Trellis.create"), ctx.prog.func("step.Step.initialize_row")]
+    looks = []
+    for fi in sites:
+        src = ast.unparse(fi.node)
+        if "StepState.RUNNING" in src or "StepState.CHECKING" in src or re.search(r"state\s*(=|IN)\s*\(?\s*\{?StepState", src):
+            looks.append(fi.fq)
+    ir = sites[2]
+    resets = [st for st in ctx.sql.stmts_in(ir.fq) if st.kind == "DELETE" and any(w[1] == "step" for w in st.writes)]
+    if not resets:
+        raise AnalysisError("Step.initialize_row no longer re-creates the step row")
+    ctx.check(bool(looks), ir.fq, "the row of a step whose command is still running is not re-initialised by a re-declaration",
+              "nothing between define_step and `DELETE FROM step` looks at the state of the reused row: a RUNNING (or CHECKING) detached step that is declared again with other arguments becomes PENDING while its command runs; the running command is no longer counted against jobs, resources or holds, and the step is dispatched a second time", "state of the reused row consulted", where=ctx.where_of(ir))
+
+
 def rule_hold_counter(ctx):
     """R-C12-5: the open-hold counter only moves with hold()/release() of the running command, and is cleared only
     when the step stops RUNNING."""
@@ -221,6 +240,7 @@ RULES = [
     Rule("R-C12-3", "resource check-then-claim is atomic and exact", rule_resources, min_instances=8),
     Rule("R-C12-4", "a checkable job cannot run a command", rule_checkable_no_command, min_instances=6),
     Rule("R-C12-5", "hold counter discipline", rule_hold_counter, min_instances=5),
+    Rule("R-C12-6", "a running command keeps its row", rule_running_row_not_reset, min_instances=1),
 ]
 
 MUTANTS = [
